@@ -31,7 +31,23 @@ var harnessDir = func() string {
 
 // overlayFiles maps harness sources into virtual files of the repository's packages.
 // harness/<pkgdir>/<name>.go -> /repo/<pkgdir>/zz_verif_<name>.go  (pkgdir "root" = repository root)
+// droppedOverlay: harness files that do not type-check against the tree under test (an internal type or
+// function they construct directly was refactored away). They are left out of the overlay - of the symbolic
+// run and of the native replays alike - and the harnesses defined in them are reported as not runnable.
+var droppedOverlay = map[string]string{}
+
 func overlayFiles() (map[string][]byte, error) {
+	all, err := overlayFilesAll()
+	if err != nil {
+		return nil, err
+	}
+	for f := range droppedOverlay {
+		delete(all, f)
+	}
+	return all, nil
+}
+
+func overlayFilesAll() (map[string][]byte, error) {
 	ov := map[string][]byte{}
 	ents, err := os.ReadDir(harnessDir)
 	if err != nil {
@@ -74,24 +90,49 @@ type loaded struct {
 }
 
 func loadRepo() (*loaded, error) {
-	ov, err := overlayFiles()
-	if err != nil {
-		return nil, err
-	}
-	cfg := &packages.Config{Mode: packages.LoadAllSyntax, Dir: repoDir, Overlay: ov,
-		Env: append(os.Environ(), "GOFLAGS=-mod=mod", "GOPROXY=off", "GOSUMDB=off", "GOTOOLCHAIN=local")}
-	pkgs, err := packages.Load(cfg, "./...")
-	if err != nil {
-		return nil, err
-	}
-	var errs []string
-	packages.Visit(pkgs, nil, func(p *packages.Package) {
-		for _, e := range p.Errors {
-			errs = append(errs, e.Error())
+	var pkgs []*packages.Package
+	// a harness file that no longer type-checks is dropped and the load repeated (at most a few rounds: a
+	// dropped file may define helpers of another one); files of the shared vocabulary are never dropped
+	for round := 0; ; round++ {
+		ov, err := overlayFiles()
+		if err != nil {
+			return nil, err
 		}
-	})
-	if len(errs) > 0 {
-		return nil, fmt.Errorf("harness-build: %s", strings.Join(errs, "; "))
+		cfg := &packages.Config{Mode: packages.LoadAllSyntax, Dir: repoDir, Overlay: ov,
+			Env: append(os.Environ(), "GOFLAGS=-mod=mod", "GOPROXY=off", "GOSUMDB=off", "GOTOOLCHAIN=local")}
+		pkgs, err = packages.Load(cfg, "./...")
+		if err != nil {
+			return nil, err
+		}
+		var errs []string
+		bad := map[string]string{}
+		onlyHarness := true
+		packages.Visit(pkgs, nil, func(p *packages.Package) {
+			for _, e := range p.Errors {
+				errs = append(errs, e.Error())
+				file := e.Pos
+				if i := strings.Index(file, ":"); i >= 0 {
+					file = file[:i]
+				}
+				base := filepath.Base(file)
+				if _, isOv := ov[file]; isOv && base != "zz_verif_vocab.go" && base != "zz_verif_models.go" {
+					if _, seen := bad[file]; !seen {
+						bad[file] = e.Msg
+					}
+				} else {
+					onlyHarness = false
+				}
+			}
+		})
+		if len(errs) == 0 {
+			break
+		}
+		if !onlyHarness || len(bad) == 0 || round >= 6 {
+			return nil, fmt.Errorf("harness-build: %s", strings.Join(errs, "; "))
+		}
+		for f, msg := range bad {
+			droppedOverlay[f] = msg
+		}
 	}
 	prog, spkgs := ssautil.AllPackages(pkgs, ssa.InstantiateGenerics)
 	prog.Build()
